@@ -117,8 +117,8 @@ pub fn c17(ctx: &mut Ctx, acc: &mut Acc) -> i32 {
 
     // (e) every subject, values including what the format cannot encode (astral characters): Ok or a documented error
     let gen = GenCtx { encodable: false, tz_names: ctx.gen.tz_names.clone(), ..GenCtx::default() };
-    let n_cat = ctx.n(60, 1500);
-    let n_der = ctx.n(20, 200);
+    let n_cat = ctx.n(400, 4000);
+    let n_der = ctx.n(80, 500);
     let ids: Vec<String> = ctx.my_subjects(|_| true).iter().map(|s| s.id().to_string()).collect();
     for id in &ids {
         if id == "BadEvolution" {
